@@ -552,14 +552,21 @@ pub async fn started_node() -> Result<std::sync::Arc<edp_node::Node>, String> {
 
 /// Connect a started node to a conforming scripted peer that writes `trailer` together with its acknowledgement.
 pub async fn connect_node(bed: &Bed, node: &edp_node::Node, their_flags: u64, trailer: &[u8]) -> Result<PeerConn, String> {
-    let listener = bed.listen("peer").await?;
-    let me = default_peer("cookie", their_flags);
+    connect_node_named(bed, node, "peer", their_flags, trailer).await
+}
+
+/// The same for a peer called `<short>@127.0.0.1` (several peers of one node).
+pub async fn connect_node_named(bed: &Bed, node: &edp_node::Node, short: &str, their_flags: u64, trailer: &[u8]) -> Result<PeerConn, String> {
+    let listener = bed.listen(short).await?;
+    let mut me = default_peer("cookie", their_flags);
+    me.name = format!("{short}@127.0.0.1");
+    let full = me.name.clone();
     let peer = async {
         let mut p = listener.accept().await?;
         p.handshake_ok_then(&me, trailer).await?;
         Ok::<_, String>(p)
     };
-    let (r, p) = tokio::join!(node.connect("peer@127.0.0.1"), peer);
+    let (r, p) = tokio::join!(node.connect(full.as_str()), peer);
     r.map_err(|e| format!("node connect failed: {e}"))?;
     p
 }
